@@ -450,6 +450,11 @@ symbol_t* value, ArbitrationState* arbitrationState) {
         valueSet = true;
         break;
       case ENH_RES_RESETTED:
+        if (valueSet) {
+          pos--;  // keep ENH_BYTE1 for later run: the symbol decoded before (and its arbitration state) is delivered first
+          len = 0;  // abort outer loop
+          break;
+        }
         if (arbitrationState && *arbitrationState != as_none) {
           *arbitrationState = as_error;
           m_arbitrationMaster = SYN;
